@@ -160,6 +160,97 @@ def success_result_schema(doc, op):
 
 
 BY_EXPOSED = {}
+DOC_PREFIX = {'f1': 'Does the first thing', 'f3': 'Third'}
+
+
+def marker_of(m):
+    return '%s.%s.%s' % (m['fn'], m['ep'], m['name'])
+
+
+def full_meta(is_rpc, mk):
+    """the method's own free-text annotations, every value carrying the method's marker"""
+    if is_rpc:
+        return dict(summary='SUM:' + mk, description='DESC:' + mk, deprecated=True,
+                    examples=[openrpc.MethodExample(name='ex:' + mk, params=[openrpc.ExampleObject(value='P:' + mk, name='p')],
+                                                    result=openrpc.ExampleObject(value='R:' + mk, name='r'))],
+                    external_docs=openrpc.ExternalDocumentation(url='http://docs/' + mk),
+                    servers=[openrpc.Server(name='srv', url='http://srv/' + mk)])
+    return dict(summary='SUM:' + mk, description='DESC:' + mk, deprecated=True,
+                examples=[openapi.MethodExample(params={'p': 'P:' + mk}, result='R:' + mk, summary='ex:' + mk)],
+                external_docs=openapi.ExternalDocumentation(url='http://docs/' + mk),
+                servers=[openapi.Server(url='http://srv/' + mk)], security=[{'sec:' + mk: []}])
+
+
+def schemas_meta(is_rpc, mk):
+    if is_rpc:
+        return dict(params_schema=[openrpc.ContentDescriptor(name='p', schema={'type': 'integer'}, summary='PS:' + mk)],
+                    result_schema=openrpc.ContentDescriptor(name='result', schema={'type': 'string'}, summary='RS:' + mk))
+    return dict(params_schema={'p': {'type': 'integer', 'title': 'PS:' + mk}}, result_schema={'type': 'string', 'title': 'RS:' + mk})
+
+
+def classify(value, own, docprefix=None):
+    if value is None:
+        return 'absent'
+    if value == own:
+        return 'own_ann'
+    if docprefix and isinstance(value, str) and value.startswith(docprefix) and len(value) <= len(docprefix) + 1:
+        return 'own_doc'
+    return 'foreign'
+
+
+def dep_class(v):
+    return 'absent' if v is None else ('true' if v is True else ('false' if v is False else 'foreign'))
+
+
+def facets_openapi(op, m, name):
+    if m is None:
+        return {k: 'foreign' for k in ('summary', 'description', 'deprecated', 'examples', 'servers', 'extdocs', 'security')}
+    mk = marker_of(m)
+    dp = DOC_PREFIX.get(m['fn'])
+    media = op.get('requestBody', {}).get('content', {}).get('application/json', {})
+    rmedia = op.get('responses', {}).get('200', {}).get('content', {}).get('application/json', {})
+    rq, rs = media.get('examples'), rmedia.get('examples')
+    if rq is None and rs is None:
+        ex = 'absent'
+    elif (isinstance(rq, dict) and isinstance(rs, dict) and list(rq) == ['ex:' + mk] and list(rs) == ['ex:' + mk]
+          and rq['ex:' + mk].get('value', {}).get('method') == name and rq['ex:' + mk]['value'].get('params') == {'p': 'P:' + mk}
+          and rs['ex:' + mk].get('value', {}).get('result') == 'R:' + mk):
+        ex = 'own_ann'
+    else:
+        ex = 'foreign'
+    servers = op.get('servers')
+    return {'summary': classify(op.get('summary'), 'SUM:' + mk, dp), 'description': classify(op.get('description'), 'DESC:' + mk, dp),
+            'deprecated': dep_class(op.get('deprecated')), 'examples': ex,
+            'servers': classify(None if servers is None else [x.get('url') for x in servers], ['http://srv/' + mk]),
+            'extdocs': classify((op.get('externalDocs') or {}).get('url'), 'http://docs/' + mk),
+            'security': classify(op.get('security'), [{'sec:' + mk: []}])}
+
+
+def facets_openrpc(me, m):
+    if m is None:
+        return {k: 'foreign' for k in ('summary', 'description', 'deprecated', 'examples', 'servers', 'extdocs', 'security')}
+    mk = marker_of(m)
+    dp = DOC_PREFIX.get(m['fn'])
+    exs = me.get('examples')
+    if exs is None:
+        ex = 'absent'
+    elif (isinstance(exs, list) and len(exs) == 1 and exs[0].get('name') == 'ex:' + mk
+          and [x.get('value') for x in exs[0].get('params', [])] == ['P:' + mk] and exs[0].get('result', {}).get('value') == 'R:' + mk):
+        ex = 'own_ann'
+    else:
+        ex = 'foreign'
+    servers = me.get('servers')
+    return {'summary': classify(me.get('summary'), 'SUM:' + mk, dp), 'description': classify(me.get('description'), 'DESC:' + mk, dp),
+            'deprecated': dep_class(me.get('deprecated')), 'examples': ex,
+            'servers': classify(None if servers is None else [x.get('url') for x in servers], ['http://srv/' + mk]),
+            'extdocs': classify((me.get('externalDocs') or {}).get('url'), 'http://docs/' + mk), 'security': 'absent'}
+
+
+def explicit_class(title, prefix, mk):
+    """an explicit (annotated) schema is recognised by its title / summary marker"""
+    if isinstance(title, str) and title.startswith(prefix):
+        return 'explicit_own' if title == prefix + mk else 'explicit_foreign'
+    return None
 
 
 def project_openapi(doc, scn, path):
@@ -178,10 +269,16 @@ def project_openapi(doc, scn, path):
         mprop = resolve(doc, req_schema.get('properties', {}).get('method', {})) if req_schema else {}
         named = [mprop.get('const')] if 'const' in mprop else list(mprop.get('enum', []))
         reqname = 'na' if not named else ('own' if named == [name] else 'other:%s' % named)
+        ptitle = resolve(doc, resolve(doc, req_schema.get('properties', {}).get('params', {})).get('properties', {}).get('p', {})).get('title') if req_schema else None
+        pcls = explicit_class(ptitle, 'PS:', marker_of(m)) if m else None
+        if pcls == 'explicit_foreign':
+            reqname = 'other:params of another method'
+        rcls = explicit_class(resolve(doc, rs).get('title') if rs is not None else None, 'RS:', marker_of(m)) if m else None
         entries.append({'fn': m['fn'] if m else 'unknown:' + name, 'name': m['name'] if m else 'unknown', 'ep': ep,
-                        'result': result_kind(doc, rs) if (scn['extractor'] == 'pyd' and rs is not None) else 'na',
+                        'meta': facets_openapi(op, m, name),
+                        'result': rcls or (result_kind(doc, rs) if (scn['extractor'] == 'pyd' and rs is not None) else 'na'),
                         'reqname': reqname, 'errors': sorted(codes), 'tags': (op.get('tags') or ['none'])[0] if len(op.get('tags') or ['x']) == 1 else 'many',
-                        'cpref': cp if scn['extractor'] == 'pyd' else 'na'})
+                        'cpref': cp if (scn['extractor'] == 'pyd' and not (m and m.get('meta') == 'schemas')) else 'na'})
     return entries
 
 
@@ -190,8 +287,13 @@ def project_openrpc(doc, scn):
     for m in doc.get('methods', []):
         tags = [t.get('name') for t in m.get('tags', [])]
         sm = next((x for x in scn['methods'] if (x['fn'] if x['name'] == 'own' else x['name']) == m.get('name') and x['ep'] == 'root'), None)
+        rcls = explicit_class(m.get('result', {}).get('summary'), 'RS:', marker_of(sm)) if sm else None
+        pcls = [explicit_class(p.get('summary'), 'PS:', marker_of(sm)) for p in m.get('params', [])] if sm else []
+        if 'explicit_foreign' in pcls:
+            rcls = 'explicit_foreign'
         entries.append({'fn': sm['fn'] if sm else 'unknown:%s' % m.get('name'), 'name': sm['name'] if sm else 'unknown', 'ep': 'root',
-                        'result': result_kind(doc, m.get('result', {}).get('schema', {})) if scn['extractor'] == 'pyd' else 'na',
+                        'meta': facets_openrpc(m, sm),
+                        'result': rcls or (result_kind(doc, m.get('result', {}).get('schema', {})) if scn['extractor'] == 'pyd' else 'na'),
                         'reqname': 'na', 'errors': sorted(e.get('code') for e in m.get('errors', [])),
                         'tags': tags[0] if len(tags) == 1 else ('none' if not tags else 'many'),
                         'cpref': 'na'})
@@ -216,6 +318,10 @@ def run(scn_wrap, docs_out):
             kw['tags'] = [openrpc.Tag(name='t1')] if is_rpc else ['t1']
         if m['cpref'] == 'P_' and not is_rpc:
             kw['component_name_prefix'] = 'P_'
+        if m.get('meta') == 'full':
+            kw.update(full_meta(is_rpc, marker_of(m)))
+        elif m.get('meta') == 'schemas':
+            kw.update(schemas_meta(is_rpc, marker_of(m)))
         if kw:
             f = (openrpc.annotate(**kw) if is_rpc else openapi.annotate(**kw))(f)
         user_objs.append({'errors': kw.get('errors'), 'tags': kw.get('tags'), 'meta': getattr(f, '__pjrpc_meta__', None)})
